@@ -60,7 +60,7 @@ def meta(tier):
 
 
 def build(hist):
-    stmts = [('const', 'K0', 7), ('const', 'K1', 12)]
+    stmts = [('const', 'K0', 7), ('const', 'K1', ('lab+', 'K0', 5))]       # K1 = K0+5: a constant defined by an expression
     defined = set()
     referenced = set()
     for s in hist:
